@@ -280,7 +280,7 @@ pub fn replicate_request(
             db: _,
             state: _,
         } => response,
-        _ => {
+        response => {
             if let Some(name) = db_name.as_deref() {
                 if !dbs.has_db(name) {
                     log::warn!("replicate_request::db_name {name} not found in databases");
@@ -359,6 +359,18 @@ pub fn replicate_request(
                     let db_name = db_name
                         .clone()
                         .expect("db_name should be set for set replication");
+                    // A stale write that lost the conflict resolution (newer strategy) stored
+                    // nothing, the replicas must not be told to store it
+                    if let Response::Set {
+                        key: _,
+                        value: stored_value,
+                    } = &response
+                    {
+                        if *stored_value != value {
+                            log::debug!("Won't replicate the set of the key {}, it lost the conflict resolution", key);
+                            return Response::Ok {};
+                        }
+                    }
                     log::debug!("Will replicate the set of the key {} to {} ", key, value);
                     replicate_web(
                         replication_sender,
